@@ -17,6 +17,7 @@ import (
 	"strings"
 	"time"
 
+	"golang.org/x/tools/go/callgraph"
 	"golang.org/x/tools/go/packages"
 	"golang.org/x/tools/go/ssa"
 )
@@ -65,6 +66,16 @@ type Mutant struct {
 	// contains KeyPart is reported.
 	Rule    string
 	KeyPart string
+	// More lists further edits that belong to the same variant (e.g. a
+	// new struct field and its use).
+	More []Edit
+}
+
+// Edit is one text replacement of a mutant.
+type Edit struct {
+	File string
+	Old  string
+	New  string
 }
 
 var registry = map[string]*Property{}
@@ -105,6 +116,7 @@ type Ctx struct {
 	Notes       []string
 	Samples     []any
 	thoroughRun bool
+	cg          *callgraph.Graph
 }
 
 type undecided struct{ reason string }
